@@ -70,6 +70,7 @@ BASE = dict(DTs='{"out"}', MaxLen=4, MaxErr=0, Marks='{}', MaxMarks=0,
             Regexes='{"re0", "reK"}', SepFix='TRUE', ReMax=REMAX,
             MaxBatch=2, MaxCalls=0, Proc='FALSE', Redir='FALSE', MaxRedir=1,
             Canon='FALSE', Readers='{}', EscapeFix='TRUE', StreamSample=0,
+            SlowTgt='FALSE', ReportAtChannelClose='FALSE',
             Policy='"any"', PrintAt=0, SearchBug='FALSE', CloseBug='FALSE',
             ResumeFix='TRUE', CollectFix='TRUE')
 DRAIN = dict(High=4, Low=1, Win=3, Sizes='{1, 2, 5}', MaxBuf=12, MaxOps=0,
@@ -200,6 +201,15 @@ def jobs_for(tier):
                    **red),
                  ['ChunkIndependent', 'NothingLost', 'AllDataThenEOF'],
                  cases=True, workers=2, heap='4g'))
+    # ExitAfterOutput: targets written by a background task (async file
+    # object, asyncio.StreamWriter), writes completing when the driver says
+    exw = dict(Policy='"exw"', Canon='TRUE', Proc='TRUE', Redir='TRUE',
+               SlowTgt='TRUE', DTs='{"out", "err"}', MaxErr=1,
+               Windows='{2, 9}', Ns='{1}', ReadAll='FALSE', MaxBatch=1,
+               MaxCalls=1, PrintAt=40, **NL_ONLY)
+    J.append(Job('tab_exw', 'Stream', S(MaxLen=2 if q else 3, **exw),
+                 ['ChunkIndependent', 'NothingLost', 'AllDataThenEOF'],
+                 cases=True, workers=4, heap='6g'))
     # two read streams on one session, some of them left unread
     two_tab = dict(Policy='"two"', Canon='TRUE', Proc='TRUE', DTs='{"out", "err"}',
                    MaxErr=3, Windows='{1, 2, 3}', Ns='{1}', ReadAll='TRUE',
@@ -276,6 +286,10 @@ def jobs_for(tier):
     J.append(Job('sens_escape', 'Stream',
                  S(MaxLen=2, Windows='{1}', Ns='{1}', EscapeFix='FALSE',
                    **dict(two, **NL_ONLY)),
+                 ['ChunkIndependent'], expect='ChunkIndependent', workers=2))
+    J.append(Job('sens_report_at_close', 'Stream',
+                 S(MaxLen=2, ReportAtChannelClose='TRUE',
+                   **dict(exw, Windows='{9}')),
                  ['ChunkIndependent'], expect='ChunkIndependent', workers=2))
     J.append(Job('sens_collect', 'Stream',
                  S(MaxLen=2, Windows='{1}', CollectFix='FALSE', **proc),
@@ -466,6 +480,9 @@ class Replayer:
                     remax=REMAX, seqtype='list' if idx % 4 < 2 else 'tuple')
         if world in ('sim_redir', 'tab_redA', 'tab_redB'):
             opts['target'] = TARGETS[idx % len(TARGETS)]
+        if world == 'tab_exw':
+            opts['target'] = ('afile', 'hstream')[idx % 2]
+        opts['waitop'] = ('wait', 'communicate', 'aexit')[idx % 3]
         try:
             res = self.stream.replay(self.h, case, **opts)
         except Exception as exc:        # pylint: disable=broad-except
@@ -688,6 +705,7 @@ def main(ctx):
                 ('tab_dfl', 1400, 3),
                 ('tab_marks', 1400, 1),
                 ('tab_redA', 1300, 1), ('tab_redB', 400, 1),
+                ('tab_exw', 700, 1),
                 ('tab_two_out', 1400, 1), ('tab_two_both', 1200, 1),
                 ('tab_two_none', 300, 1)] + \
             ([] if quick else [('tab_two_err', 1400, 1)]) + [
@@ -704,7 +722,9 @@ def main(ctx):
             cases = job.case_list
             ctx.require(len(cases) > 0, f'{world}: TLC produced no cases\n' +
                         res.output[-1500:])
-            if world.startswith('tab_red'):
+            if world == 'tab_exw':
+                sel = select(cases, quick, ctx.seed, cap)
+            elif world.startswith('tab_red'):
                 sel = select_red(cases, quick, ctx.seed, cap)
             elif world.startswith('tab_two'):
                 sel = select_two(cases, quick, ctx.seed, cap)
